@@ -516,6 +516,18 @@ func R20() Rule {
 				if !okF {
 					ok, why = false, "f runs on a path where the lock was not acquired"
 				}
+				// no way out on the acquired edge that skips the deferred unlock
+				for _, r := range returnsIn(mRun) {
+					acquired := false
+					for _, f := range core.FactsAt(r.Block()) {
+						if core.Resolve(f.Cond) == ssa.Value(lk) && f.Polarity {
+							acquired = true
+						}
+					}
+					if acquired && !core.InstrDominates(def, r) {
+						ok, why = false, "Run can return on the path where the lock was acquired without having registered the unlock: the key stays locked forever"
+					}
+				}
 			}
 			c.Check(ok, "R20", "L8/Run", mRun.Pos(), "f runs only on the acquired edge, after `defer Unlock(sameKey)`", "L8: "+why)
 		}
@@ -567,6 +579,9 @@ func R20() Rule {
 				}
 				if la.AbsAt(del)[lockMapMu] != mW {
 					ok, why = false, "the eviction is not under the map mutex"
+				}
+				if rel, released := releasedBetween(la, dec, del, lockMapMu); released {
+					ok, why = false, fmt.Sprintf("the map mutex is released (at %s) between the decrement and the eviction: a new Lock can take a reference in the gap and is then evicted while holding the key", P.Pos(rel.Pos()))
 				}
 			}
 			c.Check(ok, "R20", "L9/evict-at-zero", mReturn.Pos(), "delete is dominated by the decrement and by the refcount==0 edge, under the map mutex", "L9: "+why)
